@@ -157,3 +157,38 @@ Proof.
   intros k l. unfold front_oracle. destruct (mem x l) eqn:E; [|apply Permutation_refl].
   apply remove_first_perm. apply mem_In. exact E.
 Qed.
+
+(* ---------- the function names kept for the disassembler ---------------------------------- *)
+
+Lemma name_shown_fold P i order : forall acc,
+  let r := fold_left (fun acc n => if shown_hit P i n then Some n else acc) order acc in
+  ((forall n, In n order -> shown_hit P i n = false) /\ r = acc) \/
+  (exists n, In n order /\ shown_hit P i n = true /\ r = Some n).
+Proof.
+  induction order as [|x l IH]; intros acc; cbn [fold_left].
+  - left. split; [intros n []|reflexivity].
+  - destruct (IH (if shown_hit P i x then Some x else acc)) as [[Hnone Hr]|[n [Hin [Hh Hr]]]].
+    + destruct (shown_hit P i x) eqn:E.
+      * right. exists x. split; [left; reflexivity|]. split; [exact E | exact Hr].
+      * left. split; [|exact Hr]. intros n [<-|Hn]; [exact E | apply Hnone; exact Hn].
+    + right. exists n. split; [right; exact Hin|]. split; [exact Hh | exact Hr].
+Qed.
+
+(* DISASSEMBLY NAMES (partial: guard = no two functions of the map share index i;
+   finding F-C19-3 is the case of a Go function and an AWK function with the same index) *)
+Theorem name_shown_deterministic_partial P order order' i :
+  Permutation order order' ->
+  (forall n n', In n order -> In n' order -> shown_hit P i n = true -> shown_hit P i n' = true -> n = n') ->
+  name_shown P order i = name_shown P order' i.
+Proof.
+  intros Hp Hu. unfold name_shown.
+  destruct (name_shown_fold P i order None) as [[Hn Hr]|[n [Hin [Hh Hr]]]];
+  destruct (name_shown_fold P i order' None) as [[Hn' Hr']|[n' [Hin' [Hh' Hr']]]]; cbv zeta in *.
+  - congruence.
+  - exfalso. assert (Hi : In n' order) by (eapply Permutation_in; [apply Permutation_sym; exact Hp | exact Hin']).
+    rewrite (Hn n' Hi) in Hh'. discriminate.
+  - exfalso. assert (Hi : In n order') by (eapply Permutation_in; [exact Hp | exact Hin]).
+    rewrite (Hn' n Hi) in Hh. discriminate.
+  - assert (Hi : In n' order) by (eapply Permutation_in; [apply Permutation_sym; exact Hp | exact Hin']).
+    rewrite Hr, Hr'. f_equal. apply Hu; assumption.
+Qed.
